@@ -155,7 +155,7 @@ func builtinMathPow(call FunctionCall) Value {
 	// TODO Make sure this works according to the specification (15.8.2.13)
 	x := call.Argument(0).float64()
 	y := call.Argument(1).float64()
-	if math.Abs(x) == 1 && math.IsInf(y, 0) {
+	if math.IsNaN(y) || (math.Abs(x) == 1 && math.IsInf(y, 0)) {
 		return NaNValue()
 	}
 	return float64Value(math.Pow(x, y))
